@@ -31,7 +31,7 @@ ASSUMPTIONS = ["pixels where a level has no sample on one side of the plane (dom
 AX = "xyz"
 
 
-def run_slice(ctx, path, req, limit, serial, cn, pos, out, cli, split):
+def run_slice(ctx, path, req, limit, serial, cn, pos, out, cli, split, pre=()):
     if split is None:
         os.environ.pop("AMR_KITCHEN_VERIF_SPLIT_BYTES", None)
     else:
@@ -51,6 +51,8 @@ def run_slice(ctx, path, req, limit, serial, cn, pos, out, cli, split):
 
         def go():
             md = Mandoline(path, fields=list(req), limit_level=limit, serial=serial, verbose=0)
+            for (n0, p0) in pre:
+                md.slice(normal=n0, pos=p0, fformat="return")
             return md.slice(normal=cn, pos=pos, outfile=out, fformat="plotfile")
         return run_tool(ctx, go, cwd=ctx.scratch,
                         label=f"Mandoline({req},L={limit},serial={serial}).slice({cn},{pos},plotfile) split={split}")
@@ -95,6 +97,10 @@ def run_case(ctx):
     cli = bool(src.draw("cli", 0, 1))
     serial = bool(src.draw("serial", 0, 1))
     sig = {"property": ID, "pos": pkind, "split": split is not None}
+    pre = ()
+    if not cli and pos is not None and src.flag("object_reuse", 4):
+        n0 = (cn + 1 + src.draw("object_reuse.n", 0, 1)) % 3
+        pre = ((n0, m.geo_low[n0] + (m.geo_high[n0] - m.geo_low[n0]) * 0.37),)
     what = (f"normal={ax} pos={pos!r} ({pkind}) fields={req} limit={limit} split={split} serial={serial} "
             f"world={m.summary()}")
     parsed = []
@@ -106,7 +112,7 @@ def run_case(ctx):
             os.makedirs(os.path.join(out, "Level_0"))
             with open(os.path.join(out, "Level_0", "Cell_D_99999"), "w") as f:
                 f.write("stale")
-        o = run_slice(ctx, path, req, limit, serial, cn, pos, out, cli, split)
+        o = run_slice(ctx, path, req, limit, serial, cn, pos, out, cli, split, pre=pre)
         if not o.ok:
             raise Violation({**sig, "oracle": "slice-raises", **o.exc_sig()}, f"plotfile slice raised {o.exc!r}; {what}")
         if pre and os.path.exists(os.path.join(out, "Level_0", "Cell_D_99999")):
